@@ -720,6 +720,9 @@ func genC05(o *Out, rng *rand.Rand, tier string) {
 			o.Emit(map[string]any{"op": "Dec6", "in": B(in), "out": out}, "concurrent-decoders", append([]byte("cc"), in...), true)
 		})
 	}()
+	for _, w := range subOptionWires(rng) {
+		emit(w, "sub-option-shapes")
+	}
 	// (a) every TLV area over a small alphabet after each header kind, and truncated headers
 	hdrs := [][]byte{{1, 0xaa, 0xbb, 0xcc}, append([]byte{12, 3}, make([]byte, 32)...), append([]byte{13, 0}, randBytes(rng, 32)...)}
 	alpha := []byte{0, 1, 2, 3, 8, 255}
@@ -970,7 +973,45 @@ func fix6(o *Out, in []byte, cls string) {
 }
 
 // genC06v6: decode -> encode -> decode -> encode for non-canonical accepted inputs.
+// subOptionWires: messages whose options have a number space of their own, written byte by byte with every kind of
+// sub-option in every shape: NTP servers (RFC 5908: unicast / multicast address, name; addresses of either class in either
+// sub-option, of 4, 15, 16, 17 octets; unknown sub-options; several at once), 4RD rules (RFC 7600: every IPv4 prefix
+// length octet, IPv6 prefix lengths at their limits)
+func subOptionWires(rng *rand.Rand) [][]byte {
+	var out [][]byte
+	msg := func(code int, payload []byte) []byte {
+		return append([]byte{7, 5, 6, 7, byte(code >> 8), byte(code), byte(len(payload) >> 8), byte(len(payload))}, payload...)
+	}
+	sub := func(code int, v []byte) []byte {
+		return append([]byte{byte(code >> 8), byte(code), byte(len(v) >> 8), byte(len(v))}, v...)
+	}
+	addrs := [][]byte{net.ParseIP("2001:db8::123"), net.ParseIP("ff05::101"), net.ParseIP("ff02::1"), net.ParseIP("::ffff:10.0.0.1"), net.ParseIP("::"),
+		net.ParseIP("fe80::1"), {10, 0, 0, 1}, make([]byte, 15), make([]byte, 17), {}}
+	name := []byte{3, 'n', 't', 'p', 7, 'e', 'x', 'a', 'm', 'p', 'l', 'e', 0}
+	for _, sc := range []int{1, 2} {
+		for _, a := range addrs {
+			out = append(out, msg(56, sub(sc, a)))
+			out = append(out, msg(56, append(append(sub(sc, a), sub(3, name)...), sub(3-sc, net.ParseIP("2001:db8::5"))...)))
+		}
+	}
+	out = append(out, msg(56, sub(3, name)), msg(56, sub(3, []byte{3, 'n', 't', 'p'})), msg(56, sub(3, nil)), msg(56, sub(9, []byte{1, 2, 3})),
+		msg(56, append(sub(1, addrs[0]), sub(1, addrs[0])...)), msg(56, append(sub(3, name), sub(3, name)...)), msg(56, nil), msg(56, []byte{0, 1, 0}))
+	for p4 := 0; p4 < 256; p4++ {
+		for _, p6 := range []int{0, 64, 128, 129, 255} {
+			if p4 > 40 && p4 < 120 && p6 != 64 || p4 > 136 && p4%16 != 0 && p6 != 64 {
+				continue
+			}
+			rule := append([]byte{byte(p4), byte(p6), 8, 0, 10, 1, 2, 3}, net.ParseIP("2001:db8:aa::")...)
+			out = append(out, msg(97, sub(98, rule)))
+		}
+	}
+	return out
+}
+
 func genC06v6(o *Out, rng *rand.Rand, tier string) {
+	for _, w := range subOptionWires(rng) {
+		fix6(o, w, "sub-option-shapes")
+	}
 	n := 1500
 	if tier == "thorough" {
 		n = 25000
